@@ -48,7 +48,7 @@ func genCase(t *rapid.T, withInvalid bool) *Case {
 		}
 	}
 	c.UserOpts = rapid.SampledFrom([]int{0, 0, 0, 0, 1, 2, 3, 4}).Draw(t, "userOpts")
-	if hx.Verbose() && rapid.IntRange(0, 11).Draw(t, "stale") == 0 {
+	if hx.Verbose() && rapid.IntRange(0, 5).Draw(t, "stale") == 0 {
 		c.Stale = rapid.IntRange(1, 8).Draw(t, "staleWhich") // 5..8: the update-reports variant
 	}
 	c.NoDialFunc = rapid.IntRange(0, 9).Draw(t, "noDialFunc") == 0
